@@ -41,6 +41,12 @@ def build_mm(spec):
         mm.project.attach_module(build_mm(ch))
     if spec.get("inner_name"):
         mm.project.name = spec["inner_name"]
+    if spec.get("inner_meta"):
+        im = spec["inner_meta"]
+        ip = mm.project
+        ip.name, ip.initial_bpm, ip.initial_tpl, ip.global_volume = im["name"], im["initial_bpm"], im["initial_tpl"], im["global_volume"]
+        ip.output.color = tuple(im["output_color"])
+        ip.output.x, ip.output.y = im["output_xy"]
     if spec.get("links"):
         for f, t in spec["links"]:
             mm.project.connect(mm.project.modules[f], mm.project.modules[t])
@@ -273,6 +279,18 @@ def object_cases(ctx):
     twin = {"inner": [["Amplifier", []]], "n": 2, "maps": [[0, 1, 0], [1, 1, 0]], "values": {"0": 10, "1": 20}}
     add("nested-stored-values-differ-from-target", {"child": twin, "n": 0})
     add("nested-stored-values-differ-from-target", {"child": {"child": twin, "n": 1, "maps": [[0, 1, 5]]}, "n": 0})
+    # three exposed controllers whose stored values DIFFER from the current values of their targets (used by C06 as a
+    # source for edits of the count: hiding and re-exposing controllers is not an edit of their values)
+    add("stored-values-apart-from-targets", {"n": 3, "inner": [["Amplifier", []], ["Generator", []]],
+                                             "maps": [[0, 1, 0], [1, 2, 1], [2, 1, ctl_index("Amplifier", "balance")]],
+                                             "values": {"0": 55, "1": 1, "2": 123}, "labels": {"0": "a", "2": "c"}})
+    # an embedded project that holds NOTHING but its Output, yet carries settings of its own (name, tempo, volume, a
+    # customised Output) -- at the top and as the innermost project of a nest
+    meta = {"name": "drone bed", "initial_bpm": 90, "initial_tpl": 3, "global_volume": 77, "output_color": [10, 20, 30],
+            "output_xy": [300, 700]}
+    add("output-only-embedded-project", {"n": 0, "inner_meta": meta})
+    add("output-only-embedded-project", {"child": {"n": 0, "inner_meta": meta}, "n": 0})
+    add("output-only-embedded-project", {"child": {"child": {"n": 0, "inner_meta": meta}, "n": 0, "inner": [["Amplifier", []]]}, "n": 0})
     # an earlier mapping points at a module slot that has been emptied; later mappings onto negative-minimum targets
     bal, dco = ctl_index("Amplifier", "balance"), ctl_index("Amplifier", "dc_offset")
     for hole_first in (True, False):
